@@ -1,49 +1,78 @@
 ------------------------------- MODULE Limits -------------------------------
 (***************************************************************************)
-(* The GET concurrency limiter of api/api.go (limitHandler): a buffered     *)
-(* channel of K slots.  A GET takes a slot with a non-blocking send         *)
-(* (select ... default) before its handler runs and gives it back when the  *)
-(* handler returns; when no slot is free the request is answered 503 and    *)
-(* alertmanager_http_concurrency_limit_exceeded_total is incremented.       *)
-(* Requests with any other method bypass the limiter.                       *)
+(* The GET concurrency limiter of api/api.go (limitHandler) together with   *)
+(* the request timeout (Options.Timeout, --web.timeout).                    *)
+(*                                                                         *)
+(* Limiter: a buffered channel of K slots.  A GET takes a slot with a       *)
+(* non-blocking send (select ... default) before its handler runs and gives *)
+(* it back when the handler RETURNS; when no slot is free the request is    *)
+(* answered 503 and alertmanager_http_concurrency_limit_exceeded_total is   *)
+(* incremented.  Requests with any other method bypass the limiter.         *)
+(*                                                                         *)
+(* Timeout: with T > 0 the whole chain (limiter + handler) runs inside      *)
+(* http.TimeoutHandler.  T ticks after its arrival a request that has not   *)
+(* been answered is answered 503 by the timeout handler: the request ENDS   *)
+(* for the client, but the goroutine that runs limiter + handler goes on    *)
+(* until the handler returns.  So a request can end in two independent      *)
+(* ways, and the two sets below differ:                                     *)
+(*   waiting  - GETs whose client has not been answered yet                 *)
+(*   running  - GETs whose handler body is executing                        *)
+(* waiting \subseteq running; a timed-out request is in running \ waiting.  *)
+(* The statement ("GETs beyond the configured concurrency are refused") is  *)
+(* about the work in progress, i.e. about `running`: on the unchanged tree  *)
+(* the limiter sits INSIDE the timeout handler, so the slot is held until   *)
+(* the handler body returns, whatever the client was told meanwhile.        *)
 (*                                                                         *)
 (* One action per step of a request that the limiter distinguishes:         *)
-(* GetArrive (acquire or refuse), GetFinish (release), GetQuick (a GET      *)
-(* whose handler does not block: acquire, serve, release, or refuse),       *)
-(* Post.                                                                    *)
+(* GetArrive (acquire or refuse), GetFinish (the handler returns: release,  *)
+(* answer 200 if the client still waits), GetQuick (a GET whose handler     *)
+(* does not block: acquire, serve, release, or refuse), Post, and Tick (one *)
+(* unit of time passes; the requests that have waited T units time out).    *)
 (***************************************************************************)
 EXTENDS Integers, FiniteSets, TLC
 
 CONSTANTS K,        \* configured concurrency (Options.Concurrency, >= 1)
+          T,        \* request timeout in ticks (Options.Timeout; 0 = no timeout)
           Reqs      \* identities of the GET requests that park inside their handler
 
-VARIABLES inflight,  \* GET requests holding a slot (inside their handler)
-          served,    \* parked requests that were answered (200 or 503)
+VARIABLES running,   \* GETs inside their handler body (each holds a slot)
+          waiting,   \* GETs whose client has not been answered yet (subset of running)
+          age,       \* waiting request -> ticks since its arrival (< T when T > 0)
+          answered,  \* parked requests whose client was answered (200, 503 limit or 503 timeout)
           exceeded,  \* alertmanager_http_concurrency_limit_exceeded_total
           last       \* observation: last operation and reply
 
-vars == <<inflight, served, exceeded, last>>
+vars == <<running, waiting, age, answered, exceeded, last>>
 
-Init == inflight = {} /\ served = {} /\ exceeded = 0 /\ last = [op |-> "init"]
+Init == /\ running = {} /\ waiting = {} /\ age = [r \in {} |-> 0]
+        /\ answered = {} /\ exceeded = 0 /\ last = [op |-> "init"]
 
-Full == Cardinality(inflight) >= K     \* select: the send on the semaphore would block
+Full == Cardinality(running) >= K     \* select: the send on the semaphore would block
+
+Unused == (Reqs \ running) \ answered
 
 GetArrive(r) ==
-  /\ r \notin inflight /\ r \notin served
+  /\ r \in Unused
   /\ IF Full
        THEN /\ exceeded' = exceeded + 1
-            /\ served' = served \cup {r}
+            /\ answered' = answered \cup {r}
             /\ last' = [op |-> "get", r |-> r, code |-> 503]
-            /\ UNCHANGED inflight
-       ELSE /\ inflight' = inflight \cup {r}
+            /\ UNCHANGED <<running, waiting, age>>
+       ELSE /\ running' = running \cup {r}
+            /\ waiting' = waiting \cup {r}
+            /\ age' = [x \in waiting \cup {r} |-> IF x = r THEN 0 ELSE age[x]]
             /\ last' = [op |-> "get", r |-> r, code |-> 0]      \* in its handler, no reply yet
-            /\ UNCHANGED <<served, exceeded>>
+            /\ UNCHANGED <<answered, exceeded>>
 
+\* the handler body of r returns: the slot is given back; the client is answered 200 unless
+\* the timeout answered it before (code 0: nobody is listening any more)
 GetFinish(r) ==
-  /\ r \in inflight
-  /\ inflight' = inflight \ {r}
-  /\ served' = served \cup {r}
-  /\ last' = [op |-> "finish", r |-> r, code |-> 200]
+  /\ r \in running
+  /\ running' = running \ {r}
+  /\ waiting' = waiting \ {r}
+  /\ age' = [x \in waiting \ {r} |-> age[x]]
+  /\ answered' = answered \cup {r}
+  /\ last' = [op |-> "finish", r |-> r, code |-> IF r \in waiting THEN 200 ELSE 0]
   /\ UNCHANGED exceeded
 
 GetQuick ==
@@ -51,21 +80,37 @@ GetQuick ==
                   /\ last' = [op |-> "getquick", code |-> 503]
              ELSE /\ last' = [op |-> "getquick", code |-> 200]
                   /\ UNCHANGED exceeded
-  /\ UNCHANGED <<inflight, served>>
+  /\ UNCHANGED <<running, waiting, age, answered>>
 
 Post == /\ last' = [op |-> "post", code |-> 200]
-        /\ UNCHANGED <<inflight, served, exceeded>>
+        /\ UNCHANGED <<running, waiting, age, answered, exceeded>>
+
+\* one unit of time: the clients that have waited T units are answered 503 by the timeout
+\* handler; their handler bodies keep running and keep their slots
+Tick ==
+  /\ T > 0
+  /\ LET out == {r \in waiting : age[r] + 1 >= T} IN
+       /\ waiting' = waiting \ out
+       /\ age' = [x \in waiting \ out |-> age[x] + 1]
+       /\ answered' = answered \cup out
+       /\ last' = [op |-> "tick", out |-> out, code |-> 503]
+  /\ UNCHANGED <<running, exceeded>>
 
 -----------------------------------------------------------------------------
-(* Property C18, concurrency clause                                         *)
-SlotsBounded == Cardinality(inflight) <= K
+(* Property C18, concurrency clause - stated over the handlers that RUN      *)
+TypeOK == /\ waiting \subseteq running /\ DOMAIN age = waiting
+          /\ \A r \in waiting : age[r] >= 0 /\ (T > 0 => age[r] < T)
+\* never more than K GETs are being processed
+SlotsBounded == Cardinality(running) <= K
 IsGet == last'.op \in {"get", "getquick"}
 \* GETs beyond the configured concurrency are refused with 503 - and only those
-RefusedIffFull == [][IsGet => ((last'.code = 503) = (Cardinality(inflight) >= K))]_vars
-\* every refusal is counted
+RefusedIffFull == [][IsGet => ((last'.code = 503) = (Cardinality(running) >= K))]_vars
+\* every refusal is counted (a timeout is not a refusal of the limiter)
 RefusalCounted == [][exceeded' = exceeded + (IF IsGet /\ last'.code = 503 THEN 1 ELSE 0)]_vars
 \* POSTs are unaffected
-PostUnaffected == [][last'.op = "post" => (last'.code = 200 /\ UNCHANGED <<inflight, served, exceeded>>)]_vars
-\* a slot is given back exactly when its request is answered
-ReleaseOnAnswer == [][\A r \in inflight : r \notin inflight' => (last'.op = "finish" /\ last'.r = r)]_vars
+PostUnaffected == [][last'.op = "post" => (last'.code = 200 /\ UNCHANGED <<running, waiting, age, answered, exceeded>>)]_vars
+\* a slot is given back exactly when the handler body returns - never by the timeout
+ReleaseOnReturn == [][\A r \in running : r \notin running' => (last'.op = "finish" /\ last'.r = r)]_vars
+\* the timeout ends the request for the client only
+TimeoutKeepsSlot == [][last'.op = "tick" => (running' = running /\ exceeded' = exceeded /\ last'.out = waiting \ waiting')]_vars
 =============================================================================
